@@ -65,7 +65,10 @@ def compare(obs, exp):
             bad.append({"clause": "model_finite", "group": g, "stats": o[0]["stats"]})
             continue
         op = _pool(o[0]["pool"]) if o[0]["pool"] is not None else None
-        if [op] != erows.get(g):
+        if op is None:
+            # (inflate, centre) are not the weighted median / inflation of any pool the data can form
+            bad.append({"clause": "statistics_of_no_pool", "group": g, "expected_pool": erows.get(g), "stats": o[0]["stats"]})
+        elif [op] != erows.get(g):
             bad.append({"clause": "right_pool", "group": g, "expected": erows.get(g), "observed": op, "stats": o[0]["stats"]})
     for g in orows:
         if g not in out_groups:
